@@ -100,6 +100,11 @@ class Single(object):
       ch.fault('died')
       for r in busy:
         r['stack'].AsyncProcessResponseMessage(MethodReturnMessage(error=Exception('reset')))
+    elif name == 'Kill':
+      # the caller of a request that is still waiting inside the pool (for the connection to open) is killed / times out
+      r = self.reqs[op[1] - 1]
+      r['killed'] = True
+      r['g'].kill(block=False)
     elif name == 'OpenOk':
       self.reg.channels[op[1]].finish_open(True)
     elif name == 'OpenFail':
@@ -125,7 +130,7 @@ class Single(object):
       self.lp.errors = []
     if self.lp.quiescent() and self.closes == 0:
       # (what happens to a request that is in flight while the pool is closed is outside this statement)
-      stuck = [r for r in self.reqs if r['serial'] is None and not r['done'] and r['g'].dead]
+      stuck = [r for r in self.reqs if r['serial'] is None and not r['done'] and r['g'].dead and not r.get('killed')]
       if stuck:
         self.v('C16.singleton-lost', 'after %r: request(s) %r neither sent nor answered' % (op, [r['rid'] for r in stuck]))
 
@@ -141,6 +146,8 @@ class Single(object):
     for r in self.reqs:
       if r['serial'] is not None and not r['done']:
         ops.append(['Done', r['rid']])
+      elif p.get('kill') and r['serial'] is None and not r['done'] and not r['g'].dead and not any(x.get('killed') for x in self.reqs):
+        ops.append(['Kill', r['rid']])
     if self.n_faults < p['max_faults']:
       for c in self.live():
         if not c.open_ars:
@@ -158,7 +165,7 @@ class Single(object):
 
   def key(self):
     ch = tuple((c.state, c.close_calls, len(c.open_ars), c.open_calls, self.pool.next_sink is c, getattr(c, 'refaulted', 0)) for c in self.reg.channels)
-    rq = tuple((r['serial'], r['done'], r['g'].dead) for r in self.reqs)
+    rq = tuple((r['serial'], r['done'], r['g'].dead, r.get('killed', False)) for r in self.reqs)
     return repr((self.pool._ref_count, ch, rq, self.opens, self.closes, self.n_faults))
 
 
@@ -433,6 +440,8 @@ CONFIGS = {
     ('singleton pending opens', {'which': 'singleton', 'max_opens': 1, 'surplus': 0, 'max_reqs': 3, 'max_faults': 1, 'open_mode': 'pending'}, 8),
     ('singleton over a sink that reports Busy while it carries a request', {'which': 'singleton', 'max_opens': 1, 'surplus': 0, 'max_reqs': 3,
                                                                             'max_faults': 1, 'busy': True}, 7),
+    ('singleton pending opens, a caller waiting for the connection is killed', {'which': 'singleton', 'max_opens': 1, 'surplus': 0, 'max_reqs': 3,
+                                                                                'max_faults': 0, 'open_mode': 'pending', 'kill': True}, 8),
     ('refcount 3 holders', {'which': 'refcount', 'holders': 3}, 8),
     ('shared provider 3 keys', {'which': 'shared', 'max_refs': 4}, 8),
     ('refcount over a sink whose Close yields', {'which': 'refcount-yield', 'max_preempt': 2}, 7),
